@@ -129,7 +129,7 @@ AssumeInit(s) ==
     /\ On("AssumeInit") /\ hnd[s].k \in {"UnqU", "ArcU"}
     /\ LET b == hnd[s].b IN
        /\ blk[b].written = 1..blk[b].len
-       /\ blk[b].rc = 1
+       \* (a shared Arc<MaybeUninit<T>> may be cast too: each copy is cast, or released as it is, on its own)
        /\ blk[b].sh = "hdr" => hnd[s].k = "UnqU"
     /\ hnd' = [hnd EXCEPT ![s].k = IF hnd[s].k = "UnqU" THEN "UnqI" ELSE "ArcI"]
     /\ res' = [NoRes EXCEPT !.op = "AssumeInit", !.s = s]
